@@ -1,5 +1,6 @@
 import ESV.Comp.CgSwitch4
 import ESV.Comp.CgLabel
+import ESV.Comp.CgFalls
 /-
 `codegen_correct`: the recursion over the statement tree.
 -/
@@ -228,8 +229,13 @@ theorem cCases_c : ∀ (cs : Cases) (lb : Nat) (sw : String) (nf : Bool), cgCase
         by rw [hC2, hC1, List.append_assoc], ws.nonone.append n1,
         (((noNone_label _ _).append (hP env he).nonone).append (noNone_label _ _)).append n2, fun hw' FI _ => ?_⟩
       have hR := (hsem hw' (falls ops = true) (fun hnf hf => by
-        have := cStmts_falls (.cons b0 br) lb (Nat.zero_le _) env he hgb (fun n hn => hu n (by rw [mlCases]; exact List.mem_append_left _ hn)) hnf _ _ _ hrun
-        rw [this] at hf; cases hf)).stk e1.1 e1.2
+        rw [hC1]
+        rcases Bool.or_eq_true_iff.mp hnf with hnf | hnf
+        · have := cStmts_falls (.cons b0 br) lb (Nat.zero_le _) env he hgb (fun n hn => hu n (by rw [mlCases]; exact List.mem_append_left _ hn)) hnf _ _ _ hrun
+          rw [this] at hf; cases hf
+        · have := cStmts_ft cx.cm (.cons b0 br) lb hnf _ _ _ hrun (st.caseOps ++ [LItem.label sL false]) [LItem.label eB false]
+            (fun x hx => by simp at hx; subst hx; rfl)
+          simpa [List.append_assoc] using this)).stk e1.1 e1.2
       rw [hw1, hD1] at hR
       simp only [wSrc] at hR
       simp only [toSrcCases]
@@ -287,15 +293,20 @@ theorem cCases_c : ∀ (cs : Cases) (lb : Nat) (sw : String) (nf : Bool), cgCase
         (by rw [hw1]; intro bp hbp; simp at hbp) (by
           rw [hw1]; simp only [hasNone, Bool.false_eq_true, if_false, Nat.zero_add]
           split at hnd' <;> omega) h2
-      rcases hcase with ⟨sL, eB, hH1, hC1, ws⟩ | ⟨l, eB, hlone, hH1, hC1, ws⟩
+      rcases hcase with ⟨sL, eB, hH1, hC1, ws⟩ | ⟨l, eB, hnft, hlone, hH1, hC1, ws⟩
       · refine ⟨e1.trans e2, fun hd => nnD (by rw [hD1]; exact waitSem_nonone ws hd),
           (hs ++ [LItem.ljump ⟨n0, bp.name, bp.params⟩ (some sL)]) ++ Hr,
           ([LItem.label sL false] ++ ops ++ [LItem.label eB false]) ++ Cr, by rw [hH2, hH1, List.append_assoc],
           by rw [hC2, hC1, List.append_assoc], (ws.nonone.append (noNone_jump _ _)).append n1,
           (((noNone_label _ _).append (hP env he).nonone).append (noNone_label _ _)).append n2, fun hw' FI _ => ?_⟩
         have hR := (hsem hw' (falls ops = true) (fun hnf hf => by
-          have := cStmts_falls (.cons b0 br) lb (Nat.zero_le _) env he hgb (fun n hn => hu n (by rw [mlCases]; exact List.mem_append_left _ hn)) hnf _ _ _ hrun
-          rw [this] at hf; cases hf)).stk e1.1 e1.2
+          rw [hC1]
+          rcases Bool.or_eq_true_iff.mp hnf with hnf | hnf
+          · have := cStmts_falls (.cons b0 br) lb (Nat.zero_le _) env he hgb (fun n hn => hu n (by rw [mlCases]; exact List.mem_append_left _ hn)) hnf _ _ _ hrun
+            rw [this] at hf; cases hf
+          · have := cStmts_ft cx.cm (.cons b0 br) lb hnf _ _ _ hrun (st.caseOps ++ [LItem.label sL false]) [LItem.label eB false]
+              (fun x hx => by simp at hx; subst hx; rfl)
+            simpa [List.append_assoc] using this)).stk e1.1 e1.2
         rw [hw1, hD1] at hR
         simp only [wSrc] at hR
         simp only [toSrcCases]
@@ -320,14 +331,14 @@ theorem cCases_c : ∀ (cs : Cases) (lb : Nat) (sw : String) (nf : Bool), cgCase
           [LItem.label eB false] ++ Cr, by rw [hH2, hH1, List.append_assoc],
           by rw [hC2, hC1, List.append_assoc], (ws.nonone.append (noNone_jump _ _)).append n1,
           (noNone_label _ _).append n2, fun hw' FI hFI => ?_⟩
-        have hR := (hsem hw' False (fun _ hf => hf)).stk e1.1 e1.2
+        have hR := (hsem hw' False (fun _ hf => hf.elim)).stk e1.1 e1.2
         rw [hw1, hD1] at hR
         simp only [wSrc] at hR
         simp only [toSrcCases]
         have := (sw_fold cx fuel env he endL s.loops s.cases st.waiting hs st.defaultOps d1 l eB ops sa sb (.cons b0 br) n0 bp htest hlone hP la ca ws
           (hsb.trans e2.3) hR
           (fun hh k nt b => trCases_nodefault fuel cx.sm (brkEnv env k) sw r k nt b (countDefaults_zero r (hcr hh)))).weaken
-          (FI := FI) (fun hf => hFI hnf hf)
+          (FI := FI) (fun hf => by have := hFI hnf hf; rw [hnft] at this; cases this)
         simpa [caseName, hbn, hbp] using this
 
 end
